@@ -62,6 +62,8 @@ type Contracts struct {
 	Folds map[string]*Fold
 	// SpecFns: declared uninterpreted spec functions: name -> (argument sorts, result sort)
 	SpecFns map[string]*SpecFn
+	// Defines: recursive spec functions given by a defining equation; every use is unfolded once
+	Defines map[string]*Pred
 	// MapRanges: "func key#k" -> justification class of the k-th range-over-map of that function
 	MapRanges map[string]string
 	// SMT: raw SMT-LIB axioms defining spec functions (trusted definitions, printed in the evidence)
@@ -228,7 +230,7 @@ func parseClause(text string) (Clause, error) {
 // ParseContracts reads every "//@" line of the given files (name -> text). Keys are fully
 // qualified: pkg.Func, pkg.Type.Method (pkg = last import path element; lib/go is "lib").
 func ParseContracts(files map[string]string) (*Contracts, error) {
-	cs := &Contracts{Funcs: map[string]*Contract{}, Containers: map[string]string{}, Preds: map[string]*Pred{}, TypeInvs: map[string]Clause{}, Immutable: map[string]bool{}, Folds: map[string]*Fold{}, SpecFns: map[string]*SpecFn{}, MapRanges: map[string]string{}}
+	cs := &Contracts{Funcs: map[string]*Contract{}, Containers: map[string]string{}, Preds: map[string]*Pred{}, TypeInvs: map[string]Clause{}, Immutable: map[string]bool{}, Folds: map[string]*Fold{}, SpecFns: map[string]*SpecFn{}, MapRanges: map[string]string{}, Defines: map[string]*Pred{}}
 	var names []string
 	for n := range files {
 		names = append(names, n)
@@ -332,7 +334,7 @@ func ParseContracts(files map[string]string) (*Contracts, error) {
 				}
 				cs.TypeInvs[fields[1]] = cl
 				cur, curGuard = nil, nil
-			case "pred":
+			case "pred", "define":
 				eqi := strings.Index(rest, "=")
 				lp, rp := strings.Index(rest, "("), strings.Index(rest, ")")
 				if eqi < 0 || lp < 0 || rp < lp || rp > eqi {
@@ -349,7 +351,11 @@ func ParseContracts(files map[string]string) (*Contracts, error) {
 					return nil, fail(err)
 				}
 				pd.Body = cl
-				cs.Preds[pd.Name] = pd
+				if kw == "define" {
+					cs.Defines[pd.Name] = pd
+				} else {
+					cs.Preds[pd.Name] = pd
+				}
 				cur, curGuard = nil, nil
 			case "container":
 				if len(fields) < 3 {
